@@ -39,7 +39,8 @@ RULE = ("cases = (solutions x copies x minor allele choice x added/lost flags), 
 def BOUNDS(tier):
     return ["genes toy, GA (insertion, deletion, MNP alleles), both builds in thorough",
             "1-2 solutions x 1-" + ("3" if tier == "thorough" else "2")
-            + " copies; minor alleles symbolic over all minor alleles of the gene; one "
+            + " copies, and two solutions with 2+1 / 1+2" + (" / 3+2" if tier == "thorough"
+                                                            else "") + " copies; minor alleles symbolic over all minor alleles of the gene; one "
             "added (catalogued, not in the allele) and one lost variant per copy optional"]
 
 
@@ -52,6 +53,9 @@ def configs(tier):
                     if nsol == 2 and k == 3:
                         continue
                     c.append({"gene": g, "genome": genome, "nsol": nsol, "k": k})
+            # solutions with different numbers of copies (tied gene structures)
+            for ks in ([[2, 1], [1, 2]] + ([[3, 2]] if tier == "thorough" else [])):
+                c.append({"gene": g, "genome": genome, "nsol": 2, "k": max(ks), "ks": ks})
     return c
 
 
@@ -150,7 +154,11 @@ def check_files(gene, sols, cov):
                 probs.append(f"copy {ci}: {empties[ci]} empty rows for {len(want)} variants")
     # ---------------- VCF
     f = io.StringIO()
-    write_vcf("S", gene, cov, sols, f)
+    try:
+        write_vcf("S", gene, cov, sols, f)
+    except Exception as e:  # noqa
+        probs.append(f"[RAISED] write_vcf raised {type(e).__name__}: {e}")
+        return probs
     lines = f.getvalue().splitlines()
     hdr = [l for l in lines if l.startswith("#CHROM")]
     if len(hdr) != 1:
@@ -185,7 +193,15 @@ def check_files(gene, sols, cov):
             d = dict(zip(fmt, r[9 + si].split(":")))
             gt = d["GT"].split("|")
             wantgt = ["1" if m in carried(gene, sa) else "0" for sa in sol.solution]
-            if gt != wantgt:
+            # what the two recorded defects of write_vcf (lost variants not subtracted, one
+            # table shared by all columns) produce; anything else is a new deviation
+            knowngt = ["1" if any(ci < len(o_.solution) and m in (
+                carried(gene, o_.solution[ci]) | set(o_.solution[ci].missing))
+                for o_ in sols) else "0" for ci in range(len(sol.solution))]
+            if gt != wantgt and gt != knowngt:
+                probs.append(f"[GT-new] VCF {m}: column {si} GT {d['GT']} but copies "
+                             f"carrying it in that solution are {'|'.join(wantgt)}")
+            elif gt != wantgt:
                 why = "other"
                 for ci, (g_, w_) in enumerate(zip(gt, wantgt)):
                     if g_ != w_:
@@ -318,25 +334,27 @@ def run_config(cfg):
     pristine = gengene.load(cfg["gene"], cfg["genome"])
     mins = minors(pristine)
     nsol, k = cfg["nsol"], cfg["k"]
+    kcop = cfg.get("ks") or [k] * nsol
     eng = Engine(name="c12")
-    idx = [[z3.Int(f"m{s}_{i}") for i in range(k)] for s in range(nsol)]
-    ad = [[z3.Bool(f"a{s}_{i}") for i in range(k)] for s in range(nsol)]
-    lo = [[z3.Bool(f"l{s}_{i}") for i in range(k)] for s in range(nsol)]
+    idx = [[z3.Int(f"m{s}_{i}") for i in range(kcop[s])] for s in range(nsol)]
+    ad = [[z3.Bool(f"a{s}_{i}") for i in range(kcop[s])] for s in range(nsol)]
+    lo = [[z3.Bool(f"l{s}_{i}") for i in range(kcop[s])] for s in range(nsol)]
     base = []
     for s in range(nsol):
         base += [z3.And(x >= 0, x < len(mins)) for x in idx[s]]
-        base += [idx[s][i] <= idx[s][i + 1] for i in range(k - 1)]
+        base += [idx[s][i] <= idx[s][i + 1] for i in range(kcop[s] - 1)]
         # flags only on the first copy of the first solution (bounds the space)
-        for i in range(k):
+        for i in range(kcop[s]):
             if i or s:
                 base += [z3.Not(ad[s][i]), z3.Not(lo[s][i])]
-    tag = f"{cfg['gene']}/{cfg['genome']}/{nsol}x{k}"
+    tag = f"{cfg['gene']}/{cfg['genome']}/" + (
+        "+".join(map(str, kcop)) + " copies" if cfg.get("ks") else f"{nsol}x{k}")
 
     def run():
         picks = []
         for s in range(nsol):
             p = []
-            for i in range(k):
+            for i in range(kcop[s]):
                 j = eng.choose(idx[s][i], range(len(mins)))
                 p.append((mins[j][0], mins[j][1], eng.branch(ad[s][i]), eng.branch(lo[s][i])))
             picks.append(p)
